@@ -46,6 +46,10 @@ func TestProp(t *testing.T) {
 				if len(env.KeyStructs) > 0 {
 					out = append(out, progen.MapOf(progen.NamedT(env.KeyStructs[0]), progen.ArrayOf(2, arr)))
 				}
+				// Clone of a value that is not itself a reference: an array of references, and a struct whose
+				// only references sit inside arrays
+				out = append(out, arr, progen.ArrayOf(2, arr))
+				out = append(out, e2.Carrier(env, "WV", arr, progen.B("int"), progen.ArrayOf(2, progen.B("string"))).Elem)
 				return out
 			},
 		})
